@@ -77,6 +77,9 @@ pub struct RunCfg {
     /// stalled peer: an inbound delivery is cut inside a packet and the rest (and everything
     /// behind it) arrives 1 ms .. 40 s later, or not before the benign continuation
     pub p_peer_stall: u32,
+    /// the flush of a completely written PINGREQ stays pending once and the application drops
+    /// the operation there (timing profile)
+    pub p_ping_flush_cancel: u32,
     /// writes/flushes never stall or fail; used by timing profiles
     pub zero_time_io: bool,
     // broker policy (per mille)
@@ -507,6 +510,8 @@ pub struct World {
     pub ids_ambiguous: bool,
     /// all prior handle expectations unknown until the next unambiguous CONNACK
     pub session_ambiguous: bool,
+    /// only the clean-start flag of the next CONNECT is open (rejected CONNACK that reported no session)
+    pub clean_start_ambiguous: bool,
     /// handle must be dead: any I/O call is a C11 violation
     pub must_be_dead: bool,
     pub dead_io_snapshot: u64,
@@ -521,6 +526,10 @@ pub struct World {
     pub sim_time_max: u64,
     /// twin runs: tags of cancelled requests that are known never to have been enqueued
     pub never_enqueued: Vec<u32>,
+    /// simulated time at which the current operation was called
+    pub op_start_t: u64,
+    /// the application cancels the current operation at its next Pending
+    pub cancel_once: bool,
     /// the broker answered the last CONNACK with Session Expiry Interval 0
     pub broker_session_expiry_zero: bool,
     /// twin runs: the next operation is not cancelled (last attempt of a repeated disconnect)
@@ -541,6 +550,9 @@ pub struct World {
     pub force_cancel: Option<u8>,
     pub hold_acks: bool,
     pub hold_pubcomp: bool,
+    /// the broker withholds PUBREL after PUBREC (inbound QoS 2 saturation)
+    pub hold_pubrel: bool,
+    pub force_inbound_qos: Option<u8>,
     pub force_delay: Option<u64>,
     pub raw_after_connack: Option<Vec<u8>>,
     pub raw_pieces_after_connack: Option<Vec<Vec<u8>>>,
@@ -595,6 +607,7 @@ impl World {
             app_waiting_since: None,
             ids_ambiguous: false,
             session_ambiguous: false,
+            clean_start_ambiguous: false,
             must_be_dead: false,
             dead_io_snapshot: 0,
             cut: false,
@@ -606,6 +619,8 @@ impl World {
             op_label: "",
             sim_time_max: 0,
             never_enqueued: Vec::new(),
+            op_start_t: 0,
+            cancel_once: false,
             broker_session_expiry_zero: false,
             no_cancel: false,
             qos0_cancelled: false,
@@ -621,6 +636,8 @@ impl World {
             force_cancel: None,
             hold_acks: false,
             hold_pubcomp: false,
+            hold_pubrel: false,
+            force_inbound_qos: None,
             force_delay: None,
             raw_after_connack: None,
             raw_pieces_after_connack: None,
@@ -1020,6 +1037,19 @@ impl World {
         if let Some(e) = self.conns[conn].io_error {
             return Poll::Ready(Err(e));
         }
+        if !self.benign && self.cfg.p_ping_flush_cancel > 0 && self.conns[conn].stall_run == 0 {
+            let c = &self.conns[conn];
+            let ping_waits_for_flush = c.packets[c.unflushed_from.min(c.packets.len())..].iter().any(|p| matches!(p.pkt, Packet::PingReq));
+            if ping_waits_for_flush && { let p = self.cfg.p_ping_flush_cancel; self.s_chance(p, 1000) } {
+                self.conns[conn].stall_run = 1;
+                self.conns[conn].blocked = Blocked::FlushStall;
+                self.cancel_once = true;
+                self.fault("cancel_at_pending_pingreq_flush");
+                self.kind(13);
+                self.log(|| "flush -> Pending (PINGREQ written, not yet flushed); the application drops the operation here".to_string());
+                return Poll::Pending;
+            }
+        }
         if !self.benign && !self.cfg.zero_time_io {
             if self.conns[conn].stall_run < 3 && { let p = self.cfg.p_stall; self.s_chance(p, 1000) } {
                 self.conns[conn].stall_run += 1;
@@ -1289,6 +1319,14 @@ impl World {
                     format!("undecodable/type={}/{}", codec::type_name_of(raw[0] >> 4), err_class(&e)),
                     format!("the reference decoder rejects the client's packet: {:?} in {}", e, crate::util::hex(&raw)),
                 );
+                if raw[0] >> 4 == 1 && conn > 0 {
+                    // a reconnect whose CONNECT no conformant broker accepts, whatever the transport does
+                    self.violate(
+                        "C12",
+                        format!("reconnect-failed/connect-refused-by-any-conformant-broker/{}", err_class(&e)),
+                        format!("the CONNECT of a reconnect is not a legal packet: {:?} in {}", e, crate::util::hex(&raw)),
+                    );
+                }
                 if matches!(e, DecErr::ZeroPacketId) && matches!(raw[0] >> 4, 3 | 8 | 10) {
                     self.violate(
                         "C07",
